@@ -1013,6 +1013,7 @@ type c14Attempt struct {
 	lastApply int
 	infoPos   int
 	info      *c14Ev
+	passStart int // position of the offer that started the current pass over the chunks (a RETRY_SNAPSHOT starts another)
 }
 
 type c14Diag struct{ Key, What string }
@@ -1021,6 +1022,7 @@ type c14Diag struct{ Key, What string }
 // (observations that are stricter than, or outside, the statement).
 func c14Check(j []c14Ev, truth c14Truth) (key, what string, diags []c14Diag) {
 	rejPeer := map[string]int{}
+	rejLast := map[string]int{} // the latest verdict that named the peer
 	rejFmt := map[uint32]bool{}
 	rejSnap := map[string]bool{}
 	srcs := map[string]map[string]bool{}   // snapshot key -> peers that advertised it while not rejected and are still not rejected
@@ -1118,6 +1120,7 @@ func c14Check(j []c14Ev, truth c14Truth) (key, what string, diags []c14Diag) {
 			} else {
 				cur.returned = map[uint32]bool{}
 			}
+			cur.passStart = pos
 			cur.live = false
 			cur.info = nil
 			offerSenders, offerOpen = map[string]bool{}, true
@@ -1213,6 +1216,22 @@ func c14Check(j []c14Ev, truth c14Truth) (key, what string, diags []c14Diag) {
 				case !handed:
 					return fail("statesync/chunks.go:DiscardSender:queued-chunk-of-rejected-sender-applied",
 						fmt.Sprintf("sender %q was rejected by the app; its queued, not yet applied chunk %d was applied afterwards", e.Peer, e.Idx), pos)
+				case func() bool {
+					// the app named the sender again in a later pass (after RETRY_SNAPSHOT everything is pending again): what it
+					// had not been given in THIS pass before that verdict is queued, not applied, and must be dropped like before
+					last := rejLast[e.Peer]
+					if last <= rp || last < cur.passStart {
+						return false
+					}
+					for _, ap := range a.applied {
+						if ap >= cur.passStart && ap < last {
+							return false
+						}
+					}
+					return true
+				}():
+					return fail("statesync/chunks.go:DiscardSender:queued-chunk-of-rejected-sender-applied",
+						fmt.Sprintf("sender %q was rejected by the app again after a snapshot retry; chunk %d from it, pending again and not yet given to the app in this pass, was applied afterwards", e.Peer, e.Idx), pos)
 				default:
 					diag("diag_reapplied_chunk_of_rejected_sender", "a chunk the app had already been given before it rejected the sender was applied again (retry / retry-snapshot without refetch; ABCI: already applied chunks are not refetched unless requested)")
 				}
@@ -1234,6 +1253,7 @@ func c14Check(j []c14Ev, truth c14Truth) (key, what string, diags []c14Diag) {
 				if _, ok := rejPeer[p]; !ok {
 					rejPeer[p] = pos
 				}
+				rejLast[p] = pos
 				for _, m := range srcs {
 					delete(m, p)
 				}
